@@ -66,3 +66,29 @@ func C15(p *core.Prog, r *core.Report) {
 	ReverseMap(p, r, regionAnchors[:1])
 	r.NotDecided = append(r.NotDecided, "order of application", "de-duplication and union of regions", "piece boundaries of split", "all value-level behaviour of the commands")
 }
+
+// C08: regions, modifiers, locators.
+func C08(p *core.Prog, r *core.Report) {
+	WalkPrefix(p, r)
+	MirrorApply(p, r)
+	ModPair(p, r)
+	LocatorFresh(p, r)
+	LocPrecedence(p, r)
+	LocateRC(p, r)
+	r.Rule("FILL", ruleFill, 3)
+	r.Rule("REVERSE-MAP", "a two-pointer loop that transforms the elements it swaps must run while l <= r", 0)
+	regionAnchors := []Anchor{{gts, "Regions.Complement", true}, {gts, "Regions.Locate", false}, {gts, "Regions.Resize", false}}
+	Fill(p, r, regionAnchors)
+	ReverseMap(p, r, regionAnchors[:1])
+	r.NotDecided = append(r.NotDecided, "the offset arithmetic of Apply and of Segment.Resize", "equality of the extracted sequence with the slice of the spliced sequence (needs execution)", "selector semantics of a bare selector (decided under C19)")
+}
+
+// C10: invertibility of edits (structural part).
+func C10(p *core.Prog, r *core.Report) {
+	MergeRanged(p, r)
+	NegIndex(p, r)
+	ConcatOffset(p, r)
+	r.Rule("FMAP", ruleFmap, 12)
+	Fmap(p, r, []FmapSpec{{Pkg: gts, Name: "Insert", Inputs: []int{0, 2}}, {Pkg: gts, Name: "Embed", Inputs: []int{0, 2}}, {Pkg: gts, Name: "Delete", Inputs: []int{0}}, {Pkg: gts, Name: "Slice", Inputs: []int{0}}, {Pkg: gts, Name: "Concat", Variadic: true}})
+	r.NotDecided = append(r.NotDecided, "the boundary conventions of Shift/Expand for n >= 0 against n < 0 (which side of i an end falls on): value-level arithmetic", "equality of the restored residues and locations (needs execution)")
+}
